@@ -198,7 +198,30 @@ def run_wrapper(case):
     return None
 
 
+def run_default_entity(case):
+    """the provider on an entity that does not override on_receive_find: no matches, exactly one final success"""
+    import pydicom
+    from pynetdicom2 import sopclass as sc, dimsemessages as dm, dsutils, applicationentity as aem
+    provider = {'find': sc.qr_find_scp, 'mwl': sc.modality_work_list_scp}[case['variant']]
+    sop = sc.PATIENT_ROOT_FIND_SOP_CLASS if case['variant'] != 'mwl' else sc.MODALITY_WORK_LIST_INFORMATION_FIND_SOP_CLASS
+    pa = svc.MockAssociation(aem.AEBase(None, 16384))
+    q = pydicom.Dataset(); q.PatientID = '*'
+    rq, _ = svc.received(dm.CFindRQMessage, case['pc'], message_id=case['msgid'], sop_class_uid=sop, priority=0,
+                         data_set=dsutils.encode(q, True, True))
+    try:
+        provider(pa, svc.ctx(case['pc'], sop), rq)
+    except Exception as e:  # pylint: disable=broad-except
+        return 'the provider on an entity with the default on_receive_find raised %r' % (e,)
+    w = [svc.fields(x) for x in pa.wire()]
+    if [f['status'] for f in w] != [0]:
+        return 'a query on an entity with the default on_receive_find is answered with statuses %r (one final success expected)' % (
+            [f['status'] for f in w],)
+    return None
+
+
 def replay(case):
+    if case.get('default_entity'):
+        return run_default_entity(case)
     if case.get('wrapper'):
         return run_wrapper(case)
     if 'final' in case:
@@ -238,6 +261,16 @@ def run(chk):
         cases.append({'variant': rnd.choice(['find', 'mwl']), 'n': rnd.randrange(0, 12), 'code': 0xFF00, 'mix': True,
                       'ts': rnd.randrange(3), 'pc': rnd.randrange(1, 256, 2), 'maxlen': rnd.choice([0, 30, 64, 1024, 16384]),
                       'msgid': rnd.randrange(65536), 'seed': seed})
+    for variant in ('find', 'mwl'):
+        dc = {'default_entity': True, 'variant': variant, 'pc': 3, 'msgid': 9}
+        try:
+            r = run_default_entity(dc)
+        except Exception as e:  # pylint: disable=broad-except
+            common.raise_for(common.describe_exc(e))
+        chk.case(repr(dc), False, None)
+        chk.count('default-entity')
+        if r:
+            chk.violation('C16:default-entity', r, dc)
     # the convenience wrapper over real loopback TCP
     for n, mx in ((0, 16384), (1, 0), (5, 256)) if tier == 'quick' else ((0, 16384), (1, 0), (5, 256), (40, 128), (12, 65536)):
         wc = {'wrapper': True, 'n': n, 'maxlen': mx}
